@@ -16,7 +16,7 @@ func main() {
 	}
 	b := tv.BoundsFor(run.Tier)
 	if run.Fork(16) {
-		tv.Conformance(run)
+		tv.Conformance(run, true)
 		run.Set("rule", "programs = enumerated query texts (all feature sets with <= k features over MATCH (n) RETURN n) that translate; each is evaluated on every graph of its sliced domain; distinct_nontrivial = programs inside the SQL evaluator with a non-empty reference result on some graph")
 		run.Set("bounds", map[string]any{"max_features": int64(b.Features), "max_nodes": int64(b.MaxNodes), "max_edges": int64(b.MaxEdges), "graphs_per_query_budget": int64(b.Budget)})
 		run.Finish()
